@@ -842,6 +842,84 @@ impl CaseSpace for SplitCases {
     }
 }
 
+// ---------------------------------------------------------------------------------------
+// B: a broadcast fragment is exactly one FIR+FIN transport segment
+// ---------------------------------------------------------------------------------------
+
+struct BroadcastSegments;
+
+const BS_SHAPES: [&str; 5] = ["fir+fin", "fin-only", "fir-only", "no-flag", "fir-then-fin"];
+
+impl CaseSpace for BroadcastSegments {
+    fn name(&self) -> String {
+        "broadcast-transport-segments".to_string()
+    }
+    fn total(&self) -> usize {
+        3 * 3 * BS_SHAPES.len()
+    }
+    fn run(&self, index: usize, transcript: bool) -> RunResult {
+        let mut res = RunResult::default();
+        let mut obs = Hasher::default();
+        let shape = index % BS_SHAPES.len();
+        let i = index / BS_SHAPES.len();
+        let dst = [0xFFFFu16, 0xFFFE, 0xFFFD][i % 3];
+        let crob = app::prefixed8(12, 1, &[(3, app::crob(0x03, 1, 100, 200, 0))]);
+        let (label, frag): (&str, Vec<u8>) = [
+            ("direct-operate-nr", app::request(4, fc::DIRECT_OPERATE_NR, &crob)),
+            ("write-time", app::request(4, fc::WRITE, &app::g50v1_objects(1000))),
+            ("write-restart-bit", app::request(4, fc::WRITE, &app::write_restart_objects(false))),
+        ][(i / 3) % 3]
+            .clone();
+        let cfg = OCfg { broadcast: true, event_buf: [5; 8], ..Default::default() };
+        let mut sim = OSim::new(&cfg, 1);
+        sim.db(|db| {
+            common::add_binaries(db, 2, Some(EventClass::Class1));
+        });
+        let _ = collect(&mut sim, &mut res, &mut obs, "start", None, transcript);
+        let m = crate::osim::MASTER_ADDR;
+        let seg = |flags: u8, seq: u8, data: &[u8]| -> Vec<u8> {
+            let mut s = vec![flags | (seq & 0x3F)];
+            s.extend_from_slice(data);
+            crate::wire::link::master_data(dst, m, &s)
+        };
+        let fir = crate::wire::transport::FIR;
+        let fin = crate::wire::transport::FIN;
+        let bytes: Vec<u8> = match shape {
+            0 => seg(fir | fin, 0, &frag),
+            1 => seg(fin, 0, &frag),
+            2 => seg(fir, 0, &frag),
+            3 => seg(0, 0, &frag),
+            _ => {
+                let mut b = seg(fir, 0, &frag[..3]);
+                b.extend(seg(fin, 1, &frag[3..]));
+                b
+            }
+        };
+        sim.send_raw(&bytes);
+        let step = collect(&mut sim, &mut res, &mut obs, &format!("{label} to {dst:04X} as {}", BS_SHAPES[shape]), Some(&frag), transcript);
+        if let Some(f) = sim.failure() {
+            res.violation = Some(Violation::new("C07.X0", f.clone(), f));
+            res.obs = obs.0;
+            return res;
+        }
+        let executing = step.cbs.iter().filter(|c| c.is_executing()).count();
+        if !step.out.is_empty() {
+            res.violation = Some(Violation::new("C07.B2", format!("transmission-in-reply-to-broadcast-fragment:{label}"), format!("{}: {:?}", BS_SHAPES[shape], step.out)));
+        } else if shape != 0 && executing > 0 {
+            res.violation = Some(Violation::new(
+                "C07.B4",
+                format!("broadcast-segment-that-is-not-a-whole-fragment-executed:{}", BS_SHAPES[shape]),
+                format!("{label} to {dst:04X}: {:?}", step.cbs),
+            ));
+        }
+        // the well-formed shape is the control: it is acted on (so the others are not vacuous)
+        res.nontrivial = shape != 0 || executing > 0;
+        res.model_states.push((shape * 8 + executing.min(3)) as u64);
+        res.obs = obs.0;
+        res
+    }
+}
+
 pub fn replay(name: &str, path: &[usize]) -> Option<RunResult> {
     for tier in ["quick", "thorough"] {
         let s = build_single(tier);
@@ -856,6 +934,9 @@ pub fn replay(name: &str, path: &[usize]) -> Option<RunResult> {
     let a = build_split();
     if a.name == name {
         return Some(a.run(path[0], true));
+    }
+    if BroadcastSegments.name() == name {
+        return Some(BroadcastSegments.run(path[0], true));
     }
     for role in [Role::Outstation, Role::Master] {
         for depth in [3usize, 4] {
@@ -877,9 +958,10 @@ pub fn check(tier: &str) -> i32 {
     }
     c.cases(&build_app());
     c.cases(&build_split());
+    c.cases(&BroadcastSegments);
     c.finish(
         "model_checking",
-        "link part: role {outstation, master} x self-address feature x link state {not reset, reset} x all 256 control bytes x 7 destination classes x 6 source classes x {no payload, one user-data segment}, each followed by a link-status probe, plus all frame sequences of length 3 (4 thorough) over a 11-14 letter alphabet, executed on the real tasks and compared with a reference secondary station; application part: any-master {off,on} x broadcast feature {off,on} x 3 session states x 11 fragments x 6 (source, destination) pairs; plus every fragment cut into two or three transport segments whose link sources are drawn from {configured master, foreign master 2, foreign master 3} (nothing may be executed or answered unless every segment came from the configured master; nothing joined from two masters may execute even with any-master); non-trivial = the endpoint reacted (reply, delivery or callback); distinct = distinct observation",
+        "link part: role {outstation, master} x self-address feature x link state {not reset, reset} x all 256 control bytes x 7 destination classes x 6 source classes x {no payload, one user-data segment}, each followed by a link-status probe, plus all frame sequences of length 3 (4 thorough) over a 11-14 letter alphabet, executed on the real tasks and compared with a reference secondary station; application part: any-master {off,on} x broadcast feature {off,on} x 3 session states x 11 fragments x 6 (source, destination) pairs; plus every fragment cut into two or three transport segments whose link sources are drawn from {configured master, foreign master 2, foreign master 3} (nothing may be executed or answered unless every segment came from the configured master; nothing joined from two masters may execute even with any-master); broadcast fragments as one FIR+FIN segment (control) and as FIN-only / FIR-only / flag-less / two segments to each broadcast address (never executed, never answered); non-trivial = the endpoint reacted (reply, delivery or callback); distinct = distinct observation",
         &[
             "delivery of user data is observed at the application level (response / confirm / broadcast callback), for payloads from the configured peer",
             "invalid FCV encodings and TEST_LINK_STATES may be ignored or answered (not stated by the property), but never on a broadcast",
